@@ -14,7 +14,11 @@
       consumed the leading zeros of the source plus one value, its level is that first non-zero value, the draw has
       the bits of InvCDF(d)(y), and the level satisfies level_spec (Proofs/InvCDFCheck.v) / rel_level_spec.
       Theorems check_C07_op4_sound, check_C07_op7_sound.
-   Not covered: op 3 (no longer emitted: the harness routes it through op 6), op 9, the KS ops 5, 8, 10.
+   D. the remaining ops: 3 (old dispatch lines) and 9 (own Rand method, determinism): bit identity; the
+      Kolmogorov-Smirnov ops 5, 8, 10: sorted sample, a distance within the DKW bound that bounds every term
+      (op 8 against the exact pw_cdf; op 10 against harness-reported cdf values; op 5: D itself is harness-computed).
+      Theorems check_C07_op3/9/5/8/10_sound, together check_C07_other_ops_sound.
+   With this every op of check_C07 has a soundness reading.
    Everything is over Z/Q/lists and closed under the global context. *)
 From MM Require Import Base.Num Base.GFSum Base.GFComb Model.Choose Model.Binom Model.Hyperg Model.InvCDF.
 From MM Require Import Proofs.Choose Proofs.Binom Proofs.Hyperg Proofs.InvCDF Check.C06 Proofs.C06Table Proofs.CheckC06.
@@ -775,4 +779,289 @@ Proof.
   - split; [exact V2|]. destruct (rand_model_id_some _ _ _ RM) as (zs & rs & E1 & Hz & Hy & Hn).
     exists zs, rs. split; [exact E1|]. split; [exact Hz|]. split; [exact Hy|]. rewrite Cn, Hn. reflexivity.
   - apply (check_rel_y_sound h it t CK).
+Qed.
+
+(* ====================== D. the remaining ops: 3, 9 (bit identity), 5, 8, 10 (Kolmogorov-Smirnov) ======================
+   op 3  (dispatch lines as emitted before the relational kinds 5, 6): every level returned and the bits of
+         stats.InvCDF(d)(y) are the bits of d.InvCDF(y); every Rand pair has the same bits.
+   op 9  (the distribution has its OWN Rand method): header status 0, own bit 1 set, every pair of draws from two
+         equally seeded sources returned with the same bits.
+   op 8  Kolmogorov-Smirnov distance computed by the comparator against the exact pw_cdf: the draws (TRUSTED: they are
+         the sorted results of stats.Rand as reported by the harness, harness/c07.go) are non-decreasing and there is d
+         with d^2 * 2n <= ks_bound (the DKW bound at false-alarm probability 1e-9) that bounds EVERY term
+         (i+1)/n - cdf (v_i + tol_i) and cdf (v_i - tol_i) - i/n, tol_i = 1e-9 |v_i| (just below 0 for a draw that is 0).
+   op 10 the same against the harness-reported values cm_i = d.CDF(v_i - tol), cp_i = d.CDF(v_i + tol) of the
+         distribution's own cdf (TRUSTED observations, harness/c07_dists.go c07RunKSRel).
+   op 5  the distance D itself is computed by the harness (TRUSTED): st = 0, 0 <= D, D^2 * 2n <= ks_bound. *)
+Definition disp_ok (it : Z * Z * Z * Z) : Prop := let '(y, st, g, m) := it in st = 0%Z /\ g = m.
+Definition det_ok (it : Z * Z * Z * Z) : Prop := let '(s1, d1, s2, d2) := it in s1 = 0%Z /\ s2 = 0%Z /\ d1 = d2.
+
+Lemma run_disp_sound : forall items idx, run_disp items idx = None -> Forall disp_ok items.
+Proof.
+  induction items as [|[[[y st] g] m] rest IH]; intros idx E; [constructor|].
+  cbn [run_disp] in E. destruct ((st =? 0)%Z && (g =? m)%Z) eqn:C; [|discriminate E].
+  apply andb_prop in C. destruct C as [C1 C2]. apply Z.eqb_eq in C1, C2.
+  constructor; [split; assumption | apply (IH _ E)].
+Qed.
+Lemma run_det_sound : forall items idx, run_det items idx = None -> Forall det_ok items.
+Proof.
+  induction items as [|[[[s1 d1] s2] d2] rest IH]; intros idx E; [constructor|].
+  cbn [run_det] in E. destruct ((s1 =? 0)%Z && (s2 =? 0)%Z && (d1 =? d2)%Z) eqn:C; [|discriminate E].
+  apply andb_prop in C. destruct C as [C C3]. apply andb_prop in C. destruct C as [C1 C2]. apply Z.eqb_eq in C1, C2, C3.
+  constructor; [repeat split; assumption | apply (IH _ E)].
+Qed.
+
+(* the two terms of the distance at the i-th (0-based) of n sorted draws *)
+Definition ks_up (pw : pwf) (n : Q) (i : Z) (v : Q) : Q := inject_Z (i + 1) / n - pw_cdf pw (v + e9 * Qabs v).
+Definition ks_dn (pw : pwf) (n : Q) (i : Z) (v : Q) : Q :=
+  pw_cdf pw (if Qeq_bool v 0 then - ks_tiny else v - e9 * Qabs v) - inject_Z i / n.
+
+Lemma ks_scan_sound pw n : forall xs i prev best d, ks_scan pw n i prev xs best = Some d ->
+  best <= d /\
+  (forall p v, prev = Some p -> nth_error xs 0 = Some v -> p <= v) /\
+  (forall j a b, nth_error xs j = Some a -> nth_error xs (S j) = Some b -> a <= b) /\
+  (forall j v, nth_error xs j = Some v ->
+     ks_up pw n (i + Z.of_nat j) v <= d /\ ks_dn pw n (i + Z.of_nat j) v <= d).
+Proof.
+  induction xs as [|v r IH]; intros i prev best d H.
+  - cbn [ks_scan] in H. injection H as <-. split; [lra|]. split; [intros p v _ N; discriminate N|].
+    split; [intros j a b N; destruct j; discriminate N | intros j v N; destruct j; discriminate N].
+  - cbn [ks_scan] in H.
+    destruct (match prev with Some p => Qltb v p | None => false end) eqn:SO; [discriminate H|]. cbv zeta in H.
+    match type of H with ks_scan _ _ _ _ _ (Qmaxb ?b (Qmaxb ?u ?dn)) = _ =>
+      pose proof (Qmaxb_spec b (Qmaxb u dn)) as (M1 & M2 & _); pose proof (Qmaxb_spec u dn) as (M3 & M4 & _) end.
+    apply IH in H. destruct H as (B & P & Srt & T).
+    split; [lra|]. split; [|split].
+    + intros p v0 -> N. cbn in N. injection N as <-. apply Qltb_false in SO. exact SO.
+    + intros j a b Na Nb. destruct j as [|j].
+      * cbn in Na, Nb. injection Na as <-. apply (P v b eq_refl Nb).
+      * apply (Srt j a b Na Nb).
+    + intros j v0 N. destruct j as [|j].
+      * cbn in N. injection N as <-. rewrite Z.add_0_r. unfold ks_up, ks_dn. split; lra.
+      * cbn [nth_error] in N. destruct (T j v0 N) as [T1 T2].
+        replace (i + Z.of_nat (S j))%Z with (i + 1 + Z.of_nat j)%Z by lia. auto.
+Qed.
+
+(* what an accepted op-8 sample means, for the distance d found *)
+Definition ks_pw_spec (pw : pwf) (xs : list Q) (d : Q) : Prop :=
+  let n := inject_Z (Z.of_nat (length xs)) in
+  (forall j a b, nth_error xs j = Some a -> nth_error xs (S j) = Some b -> a <= b) /\
+  (forall j v, nth_error xs j = Some v -> ks_up pw n (Z.of_nat j) v <= d /\ ks_dn pw n (Z.of_nat j) v <= d).
+
+(* op 10: the items are (draw, cm, cp), all finite *)
+Lemma ks_scan3_sound n : forall xs i prev best d, ks_scan3 n i prev xs best = Some d ->
+  best <= d /\
+  (forall p v cm cp, prev = Some p -> nth_error xs 0 = Some (XFin v, cm, cp) -> p <= v) /\
+  (forall j a ca ca' b cb cb', nth_error xs j = Some (XFin a, ca, ca') -> nth_error xs (S j) = Some (XFin b, cb, cb') -> a <= b) /\
+  (forall j it, nth_error xs j = Some it -> exists v cm cp, it = (XFin v, XFin cm, XFin cp) /\
+     inject_Z (i + Z.of_nat j + 1) / n - cp <= d /\ cm - inject_Z (i + Z.of_nat j) / n <= d).
+Proof.
+  induction xs as [|[[xv xm] xp] r IH]; intros i prev best d H.
+  - cbn [ks_scan3] in H. injection H as <-. split; [lra|]. split; [intros p v cm cp _ N; discriminate N|].
+    split; [intros j a ca ca' b cb cb' N; destruct j; discriminate N | intros j it N; destruct j; discriminate N].
+  - cbn [ks_scan3] in H.
+    destruct xv as [| |v]; try discriminate H. destruct xm as [| |cm]; try discriminate H.
+    destruct xp as [| |cp]; try discriminate H.
+    destruct (match prev with Some p => Qltb v p | None => false end) eqn:SO; [discriminate H|]. cbv zeta in H.
+    match type of H with ks_scan3 _ _ _ _ (Qmaxb ?b (Qmaxb ?u ?dn)) = _ =>
+      pose proof (Qmaxb_spec b (Qmaxb u dn)) as (M1 & M2 & _); pose proof (Qmaxb_spec u dn) as (M3 & M4 & _) end.
+    apply IH in H. destruct H as (B & P & Srt & T).
+    split; [lra|]. split; [|split].
+    + intros p v0 cm0 cp0 -> N. cbn in N. injection N as <- _ _. apply Qltb_false in SO. exact SO.
+    + intros j a ca ca' b cb cb' Na Nb. destruct j as [|j].
+      * cbn in Na, Nb. injection Na as <- _ _. apply (P v b cb cb' eq_refl Nb).
+      * apply (Srt j a ca ca' b cb cb' Na Nb).
+    + intros j it N. destruct j as [|j].
+      * cbn in N. injection N as <-. exists v, cm, cp. split; [reflexivity|]. rewrite Z.add_0_r. split; lra.
+      * cbn [nth_error] in N. destruct (T j it N) as (v0 & cm0 & cp0 & -> & T1 & T2).
+        exists v0, cm0, cp0. split; [reflexivity|].
+        replace (i + Z.of_nat (S j))%Z with (i + 1 + Z.of_nat j)%Z by lia. auto.
+Qed.
+
+Definition ks_own_spec (items : list (xreal * xreal * xreal)) (d : Q) : Prop :=
+  let n := inject_Z (Z.of_nat (length items)) in
+  (forall j a ca ca' b cb cb', nth_error items j = Some (XFin a, ca, ca') -> nth_error items (S j) = Some (XFin b, cb, cb') -> a <= b) /\
+  (forall j it, nth_error items j = Some it -> exists v cm cp, it = (XFin v, XFin cm, XFin cp) /\
+     inject_Z (Z.of_nat j + 1) / n - cp <= d /\ cm - inject_Z (Z.of_nat j) / n <= d).
+
+Theorem check_C07_op3_sound : forall rest c tag pos diag,
+  check_C07 (7 :: 3 :: rest)%Z = verdict c tag pos diag -> (c = 0 \/ c = 1)%Z ->
+  exists items pairs,
+    (do kind <- pZ; do a <- pZ; do b <- pZ; do items <- plist p_disp; do pairs <- plist p_pair; pend (items, pairs)) rest
+      = Some ((items, pairs), []) /\
+    Forall disp_ok items /\ Forall (fun gm : Z * Z => fst gm = snd gm) pairs.
+Proof.
+  intros rest c tag pos diag E Hc. cbn [check_C07] in E.
+  destruct ((do kind <- pZ; do a <- pZ; do b <- pZ; do items <- plist p_disp; do pairs <- plist p_pair; pend (items, pairs)) rest)
+    as [[[items pairs] tl]|] eqn:P.
+  2: { exfalso. apply verdict_inj in E. unfold V_MALFORMED in E. lia. }
+  assert (TL : tl = []).
+  { clear E. repeat (apply pbind_some in P; destruct P as (? & ? & _ & P)). apply pend_some in P. tauto. }
+  subst tl.
+  destruct (run_disp items 0) as [[idx dg]|] eqn:RD.
+  { exfalso. apply verdict_inj in E. unfold V_MISMATCH in E. lia. }
+  destruct (run_pairs pairs 0) as [[idx dg]|] eqn:RP.
+  { exfalso. apply verdict_inj in E. unfold V_MISMATCH in E. lia. }
+  exists items, pairs. split; [reflexivity|]. split; [apply (run_disp_sound _ _ RD)|apply (run_pairs_sound _ _ RP)].
+Qed.
+
+Theorem check_C07_op9_sound : forall rest0 c tag pos diag,
+  check_C07 (7 :: 9 :: rest0)%Z = verdict c tag pos diag -> (c = 0 \/ c = 1)%Z ->
+  exists h rest items,
+    p_relhdr rest0 = Some (h, rest) /\ rh_hst h = 0%Z /\
+    (do items <- plist p_det; pend items) rest = Some (items, []) /\
+    Z.land (rh_own h) 2 <> 0%Z /\ Forall det_ok items.
+Proof.
+  intros rest0 c tag pos diag E Hc. cbn [check_C07] in E. unfold rel_header in E.
+  destruct (p_relhdr rest0) as [[h rest]|] eqn:PH.
+  2: { exfalso. apply verdict_inj in E. unfold V_MALFORMED in E. lia. }
+  destruct (rh_hst h =? 0)%Z eqn:HS.
+  2: { exfalso. apply verdict_inj in E. unfold V_MISMATCH in E. lia. }
+  apply Z.eqb_eq in HS.
+  destruct ((do items <- plist p_det; pend items) rest) as [[items tl]|] eqn:P.
+  2: { exfalso. apply verdict_inj in E. unfold V_MALFORMED in E. lia. }
+  assert (TL : tl = []).
+  { clear E. pose proof P as P'. repeat (apply pbind_some in P'; destruct P' as (? & ? & _ & P')). apply pend_some in P'. tauto. }
+  subst tl.
+  destruct (Z.land (rh_own h) 2 =? 0)%Z eqn:OW.
+  { exfalso. apply verdict_inj in E. unfold V_MALFORMED in E. lia. }
+  apply Z.eqb_neq in OW.
+  destruct (run_det items 0) as [[idx dg]|] eqn:RD.
+  { exfalso. apply verdict_inj in E. unfold V_MISMATCH in E. lia. }
+  exists h, rest, items. split; [reflexivity|]. split; [exact HS|]. split; [exact P|]. split; [exact OW|apply (run_det_sound _ _ RD)].
+Qed.
+
+Theorem check_C07_op5_sound : forall rest c tag pos diag,
+  check_C07 (7 :: 5 :: rest)%Z = verdict c tag pos diag -> (c = 0 \/ c = 1)%Z ->
+  exists pw n st D,
+    (do pw <- plist p_knot; do bl <- pQ; do bh <- pQ; do n <- pZ; do st <- pZ; do d <- pX; pend (pw, n, st, d)) rest
+      = Some ((pw, n, st, XFin D), []) /\
+    pw_wf pw /\ (1 <= n)%Z /\ st = 0%Z /\ 0 <= D /\ D * D * inject_Z (2 * n) <= ks_bound.
+Proof.
+  intros rest c tag pos diag E Hc. cbn [check_C07] in E.
+  destruct ((do pw <- plist p_knot; do bl <- pQ; do bh <- pQ; do n <- pZ; do st <- pZ; do d <- pX; pend (pw, n, st, d)) rest)
+    as [[[[[pw n] st] d] tl]|] eqn:P.
+  2: { exfalso. apply verdict_inj in E. unfold V_MALFORMED in E. lia. }
+  assert (TL : tl = []).
+  { clear E. repeat (apply pbind_some in P; destruct P as (? & ? & _ & P)). apply pend_some in P. tauto. }
+  subst tl.
+  destruct (negb (valid_pw pw) || (n <? 1)%Z) eqn:V.
+  { exfalso. apply verdict_inj in E. unfold V_MALFORMED in E. lia. }
+  apply Bool.orb_false_iff in V. destruct V as [V1 V2]. apply Bool.negb_false_iff in V1. apply Z.ltb_ge in V2.
+  destruct d as [| |D].
+  1, 2: exfalso; apply verdict_inj in E; unfold V_MISMATCH in E; lia.
+  destruct ((st =? 0)%Z && Qle_bool 0 D && Qle_bool (D * D * inject_Z (2 * n)) ks_bound) eqn:C.
+  2: { exfalso. apply verdict_inj in E. unfold V_MISMATCH in E. lia. }
+  apply andb_prop in C. destruct C as [C C3]. apply andb_prop in C. destruct C as [C1 C2].
+  apply Z.eqb_eq in C1. apply Qleb_true in C2, C3.
+  exists pw, n, st, D. split; [reflexivity|]. split; [apply pw_wfb_sound; exact V1|]. auto.
+Qed.
+
+Theorem check_C07_op8_sound : forall rest c tag pos diag,
+  check_C07 (7 :: 8 :: rest)%Z = verdict c tag pos diag -> (c = 0 \/ c = 1)%Z ->
+  exists pw st xs,
+    (do pw <- plist p_knot; do bl <- pQ; do bh <- pQ; do st <- pZ; do xs <- plist pQ; pend (pw, st, xs)) rest
+      = Some ((pw, st, xs), []) /\
+    pw_wf pw /\ (1 <= Z.of_nat (length xs))%Z /\ st = 0%Z /\
+    exists d, ks_scan pw (inject_Z (Z.of_nat (length xs))) 0 None xs 0 = Some d /\
+              0 <= d /\ d * d * inject_Z (2 * Z.of_nat (length xs)) <= ks_bound /\ ks_pw_spec pw xs d.
+Proof.
+  intros rest c tag pos diag E Hc. cbn [check_C07] in E.
+  destruct ((do pw <- plist p_knot; do bl <- pQ; do bh <- pQ; do st <- pZ; do xs <- plist pQ; pend (pw, st, xs)) rest)
+    as [[[[pw st] xs] tl]|] eqn:P.
+  2: { exfalso. apply verdict_inj in E. unfold V_MISMATCH in E. lia. }
+  assert (TL : tl = []).
+  { clear E. repeat (apply pbind_some in P; destruct P as (? & ? & _ & P)). apply pend_some in P. tauto. }
+  subst tl. cbv zeta in E.
+  destruct (negb (valid_pw pw) || (Z.of_nat (length xs) <? 1)%Z) eqn:V.
+  { exfalso. apply verdict_inj in E. unfold V_MALFORMED in E. lia. }
+  apply Bool.orb_false_iff in V. destruct V as [V1 V2]. apply Bool.negb_false_iff in V1. apply Z.ltb_ge in V2.
+  destruct (st =? 0)%Z eqn:St; cbn [negb] in E.
+  2: { exfalso. apply verdict_inj in E. unfold V_MISMATCH in E. lia. }
+  apply Z.eqb_eq in St.
+  destruct (ks_scan pw (inject_Z (Z.of_nat (length xs))) 0 None xs 0) as [d|] eqn:KS.
+  2: { exfalso. apply verdict_inj in E. unfold V_MALFORMED in E. lia. }
+  destruct (Qle_bool (d * d * inject_Z (2 * Z.of_nat (length xs))) ks_bound) eqn:B.
+  2: { exfalso. apply verdict_inj in E. unfold V_MISMATCH in E. lia. }
+  apply Qleb_true in B.
+  destruct (ks_scan_sound _ _ _ _ _ _ _ KS) as (K0 & _ & K2 & K3).
+  exists pw, st, xs. split; [first [reflexivity|exact P]|]. split; [apply pw_wfb_sound; exact V1|]. split; [exact V2|]. split; [exact St|].
+  exists d. split; [first [reflexivity|exact KS]|]. split; [exact K0|]. split; [exact B|]. split; [exact K2|exact K3].
+Qed.
+
+Theorem check_C07_op10_sound : forall rest0 c tag pos diag,
+  check_C07 (7 :: 10 :: rest0)%Z = verdict c tag pos diag -> (c = 0 \/ c = 1)%Z ->
+  exists h rest st items,
+    p_relhdr rest0 = Some (h, rest) /\ rh_hst h = 0%Z /\
+    (do st <- pZ; do items <- plist p_ks3; pend (st, items)) rest = Some ((st, items), []) /\
+    (1 <= Z.of_nat (length items))%Z /\ st = 0%Z /\
+    exists d, ks_scan3 (inject_Z (Z.of_nat (length items))) 0 None items 0 = Some d /\
+              0 <= d /\ d * d * inject_Z (2 * Z.of_nat (length items)) <= ks_bound /\ ks_own_spec items d.
+Proof.
+  intros rest0 c tag pos diag E Hc. cbn [check_C07] in E. unfold rel_header in E.
+  destruct (p_relhdr rest0) as [[h rest]|] eqn:PH.
+  2: { exfalso. apply verdict_inj in E. unfold V_MALFORMED in E. lia. }
+  destruct (rh_hst h =? 0)%Z eqn:HS.
+  2: { exfalso. apply verdict_inj in E. unfold V_MISMATCH in E. lia. }
+  apply Z.eqb_eq in HS.
+  destruct ((do st <- pZ; do items <- plist p_ks3; pend (st, items)) rest) as [[[st items] tl]|] eqn:P.
+  2: { exfalso. apply verdict_inj in E. unfold V_MALFORMED in E. lia. }
+  assert (TL : tl = []).
+  { clear E. pose proof P as P'. repeat (apply pbind_some in P'; destruct P' as (? & ? & _ & P')). apply pend_some in P'. tauto. }
+  subst tl. cbv zeta in E.
+  destruct (Z.of_nat (length items) <? 1)%Z eqn:V.
+  { exfalso. apply verdict_inj in E. unfold V_MALFORMED in E. lia. }
+  apply Z.ltb_ge in V.
+  destruct (st =? 0)%Z eqn:St; cbn [negb] in E.
+  2: { exfalso. apply verdict_inj in E. unfold V_MISMATCH in E. lia. }
+  apply Z.eqb_eq in St.
+  destruct (ks_scan3 (inject_Z (Z.of_nat (length items))) 0 None items 0) as [d|] eqn:KS.
+  2: { exfalso. apply verdict_inj in E. unfold V_MISMATCH in E. lia. }
+  destruct (Qle_bool (d * d * inject_Z (2 * Z.of_nat (length items))) ks_bound) eqn:B.
+  2: { exfalso. apply verdict_inj in E. unfold V_MISMATCH in E. lia. }
+  apply Qleb_true in B.
+  destruct (ks_scan3_sound _ _ _ _ _ _ KS) as (K0 & _ & K2 & K3).
+  exists h, rest, st, items. split; [reflexivity|]. split; [exact HS|]. split; [exact P|]. split; [exact V|]. split; [exact St|].
+  exists d. split; [first [reflexivity|exact KS]|]. split; [exact K0|]. split; [exact B|]. split; [exact K2|exact K3].
+Qed.
+
+(* the five readings of this section as one statement (one Print Assumptions in Properties/C07.v) *)
+Theorem check_C07_other_ops_sound :
+  (forall rest c tag pos diag,
+  check_C07 (7 :: 3 :: rest)%Z = verdict c tag pos diag -> (c = 0 \/ c = 1)%Z ->
+  exists items pairs,
+    (do kind <- pZ; do a <- pZ; do b <- pZ; do items <- plist p_disp; do pairs <- plist p_pair; pend (items, pairs)) rest
+      = Some ((items, pairs), []) /\
+    Forall disp_ok items /\ Forall (fun gm : Z * Z => fst gm = snd gm) pairs) /\
+  (forall rest0 c tag pos diag,
+  check_C07 (7 :: 9 :: rest0)%Z = verdict c tag pos diag -> (c = 0 \/ c = 1)%Z ->
+  exists h rest items,
+    p_relhdr rest0 = Some (h, rest) /\ rh_hst h = 0%Z /\
+    (do items <- plist p_det; pend items) rest = Some (items, []) /\
+    Z.land (rh_own h) 2 <> 0%Z /\ Forall det_ok items) /\
+  (forall rest c tag pos diag,
+  check_C07 (7 :: 5 :: rest)%Z = verdict c tag pos diag -> (c = 0 \/ c = 1)%Z ->
+  exists pw n st D,
+    (do pw <- plist p_knot; do bl <- pQ; do bh <- pQ; do n <- pZ; do st <- pZ; do d <- pX; pend (pw, n, st, d)) rest
+      = Some ((pw, n, st, XFin D), []) /\
+    pw_wf pw /\ (1 <= n)%Z /\ st = 0%Z /\ 0 <= D /\ D * D * inject_Z (2 * n) <= ks_bound) /\
+  (forall rest c tag pos diag,
+  check_C07 (7 :: 8 :: rest)%Z = verdict c tag pos diag -> (c = 0 \/ c = 1)%Z ->
+  exists pw st xs,
+    (do pw <- plist p_knot; do bl <- pQ; do bh <- pQ; do st <- pZ; do xs <- plist pQ; pend (pw, st, xs)) rest
+      = Some ((pw, st, xs), []) /\
+    pw_wf pw /\ (1 <= Z.of_nat (length xs))%Z /\ st = 0%Z /\
+    exists d, ks_scan pw (inject_Z (Z.of_nat (length xs))) 0 None xs 0 = Some d /\
+              0 <= d /\ d * d * inject_Z (2 * Z.of_nat (length xs)) <= ks_bound /\ ks_pw_spec pw xs d) /\
+  (forall rest0 c tag pos diag,
+  check_C07 (7 :: 10 :: rest0)%Z = verdict c tag pos diag -> (c = 0 \/ c = 1)%Z ->
+  exists h rest st items,
+    p_relhdr rest0 = Some (h, rest) /\ rh_hst h = 0%Z /\
+    (do st <- pZ; do items <- plist p_ks3; pend (st, items)) rest = Some ((st, items), []) /\
+    (1 <= Z.of_nat (length items))%Z /\ st = 0%Z /\
+    exists d, ks_scan3 (inject_Z (Z.of_nat (length items))) 0 None items 0 = Some d /\
+              0 <= d /\ d * d * inject_Z (2 * Z.of_nat (length items)) <= ks_bound /\ ks_own_spec items d).
+Proof.
+  exact (conj check_C07_op3_sound (conj check_C07_op9_sound (conj check_C07_op5_sound
+        (conj check_C07_op8_sound check_C07_op10_sound)))).
 Qed.
